@@ -100,7 +100,7 @@ func c11Copy(rc *RuleCtx) {
 							for _, st := range storesTo(t) {
 								k := objKeyOf(st.Val)
 								if e, ok := stripToExtract(k.root); ok && e.Index == 1 {
-									if c, _ := e.Tuple.(*ssa.Call); c != nil && calleeFunc(c) != nil && calleeFunc(c).Name() == "searchNode" {
+									if c, _ := e.Tuple.(*ssa.Call); c != nil && calleeFunc(c) != nil && nm(calleeFunc(c)) == "searchNode" {
 										rooted = true
 									}
 								}
@@ -401,7 +401,7 @@ func refersToNode(t types.Type, depth int) bool {
 		return false
 	}
 	if n := namedOf(t); n != nil && n.Obj().Pkg() != nil && n.Obj().Pkg().Path() == longPath("memfs") {
-		switch n.Obj().Name() {
+		switch nm(n.Obj()) {
 		case "dirNode", "node", "fileNode", "symlinkNode", "baseNode":
 			if _, isPtr := t.(*types.Pointer); isPtr {
 				return true
